@@ -126,3 +126,46 @@ func H_C15_notifier_conc() {
 		verifrt.Assert(err != nil, "Wait returned success although Notify was never called")
 	}
 }
+
+// H_C15_notifier_stale: a listener of an earlier generation (its value was notified, then a new listener for the
+// same value was created) is deregistered or waited for; the new listener must still be released by the next
+// Notify, and must not be released before it. (Six events: beyond the bound of H_C15_notifier_hist.)
+//
+//verif:h prop=C15 cover=stale-dereg,stale-wait,notified,not-notified
+func H_C15_notifier_stale() {
+	n := New[uint8]()
+	v := verifrt.U8("v")
+	l1 := n.Listener(v)
+	var l1b *Listener
+	if verifrt.Choose("twoOld", 2) == 1 {
+		l1b = n.Listener(v)
+	}
+	n.Notify(v)
+	l2 := n.Listener(v)
+	verifrt.MustFinish()
+	if verifrt.Choose("how", 2) == 0 {
+		verifrt.Cover("stale-dereg")
+		l1.Deregister()
+	} else {
+		verifrt.Cover("stale-wait")
+		verifrt.Assert(l1.Wait(context.Background()) == nil, "Wait must succeed: Notify for the listener's value was called while it was registered")
+	}
+	if l1b != nil {
+		l1b.Deregister()
+	}
+	select {
+	case <-l2.channel:
+		verifrt.Assert(false, "a listener was released although Notify was never called for its value since it was created")
+	default:
+	}
+	if verifrt.Choose("notify", 2) == 1 {
+		verifrt.Cover("notified")
+		n.Notify(v)
+		verifrt.Assert(l2.Wait(context.Background()) == nil, "Wait must succeed: Notify for the listener's value was called while it was registered")
+	} else {
+		verifrt.Cover("not-notified")
+		l2.Deregister()
+		err := l2.Wait(context.Background())
+		verifrt.Assert(err != nil && ierrors.Is(err, ErrListenerDeregistered), "Wait on a deregistered listener must report ErrListenerDeregistered")
+	}
+}
